@@ -34,23 +34,55 @@ def find_fn(cx, suffix):
     return None
 
 
+ROLES = {}
+
+
 def mkself(it, st):
+    """the evaluator under its representation: front = a whole slice, tail = its suffix from t, last, L
+    (fields placed by role, see field_roles)"""
     segty = adt('piecewise::Segment', param('T'))
     hs = it.alloc(st, SeqSym('front', segty), 'front')
     n1 = ('len', ('seq', 'front'))
     hl = it.alloc(st, it.materialize(segty, 'last', st), 'last')
-    ev = Struct('piecewise::PiecewiseEvaluator',
-                (SliceRef(hs, (), ('ic', 0), n1), SliceRef(hs, (), sym('t'), n1), Ref(hl, ()), sym('L')))
+    roles = ROLES.get('idx') or {'front': 0, 'tail': 1, 'last': 2, 'L': 3}
+    vals = {'front': SliceRef(hs, (), ('ic', 0), n1), 'tail': SliceRef(hs, (), sym('t'), n1), 'last': Ref(hl, ()), 'L': sym('L')}
+    fields = [None] * 4
+    for role, i in roles.items():
+        fields[i] = vals[role]
+    ev = Struct('piecewise::PiecewiseEvaluator', tuple(fields))
     r = it.alloc(st, ev, 'self')
     return Ref(r, (), True)
 
 
-def field_index(cx, name):
+def field_roles(cx):
+    """the four private fields of PiecewiseEvaluator by role, whatever they are called and in whatever order they are declared:
+    L = the f64; last = the &Segment; of the two &[Segment] the cursor `tail` is the one some method other than new() assigns,
+    `front` the one nothing assigns"""
     a = cx.facts.adts.get('piecewise::PiecewiseEvaluator')
-    for i, f in enumerate(a['variants'][0]['fields']):
-        if f['name'] == name:
-            return i
-    return None
+    if a is None:
+        return None
+    fl = a['variants'][0]['fields']
+    if len(fl) != 4:
+        return None
+    f64s = [i for i, f in enumerate(fl) if f['ty'].get('k') == 'float']
+    refs = [i for i, f in enumerate(fl) if f['ty'].get('k') == 'ref' and f['ty']['ty'].get('k') == 'adt']
+    slices = [i for i, f in enumerate(fl) if f['ty'].get('k') == 'ref' and f['ty']['ty'].get('k') == 'slice']
+    if len(f64s) != 1 or len(refs) != 1 or len(slices) != 2:
+        return None
+    written = set()
+    for f in cx.facts.raw['fns']:
+        if not f['path'].startswith('<piecewise::PiecewiseEvaluator<') or f['path'].split('::{closure')[0].endswith('>::new'):
+            continue
+        for blk in f['body']['blocks']:
+            for stt in blk['stmts']:
+                if stt.get('s') == 'assign':
+                    pr = stt['place']['proj']
+                    if len(pr) >= 2 and pr[0]['p'] == 'deref' and pr[1]['p'] == 'field' and pr[1]['i'] in slices and len(pr) == 2:
+                        written.add(pr[1]['i'])
+    if len(written) != 1:
+        return None
+    t = written.pop()
+    return {'front': [i for i in slices if i != t][0], 'tail': t, 'last': refs[0], 'L': f64s[0]}
 
 
 def mdict(a, b):
@@ -85,12 +117,12 @@ def check(cx):
     if fnew is None or fev is None:
         rep.finding('floor', 'roots', 'PiecewiseEvaluator::{new, evaluate} not found')
         return rep
-    names = ['all_segments_front', 'tail', 'last', 'last_evaluation']
-    idx = {n: field_index(cx, n) for n in names}
-    if any(v is None for v in idx.values()):
-        rep.finding('floor', 'fields', 'PiecewiseEvaluator no longer has the fields %s' % names)
+    roles = field_roles(cx)
+    if roles is None:
+        rep.finding('floor', 'fields', 'PiecewiseEvaluator is no longer {whole front slice, cursor slice (the only one assigned after new), last segment, last argument}')
         return rep
-    iF, iT, iLst, iLE = idx['all_segments_front'], idx['tail'], idx['last'], idx['last_evaluation']
+    ROLES['idx'] = roles
+    iF, iT, iLst, iLE = roles['front'], roles['tail'], roles['last'], roles['L']
     init_below_all = [False]
 
     # ------------------------------------------------------------------ new
